@@ -206,7 +206,7 @@ def nd_getitem(I, a, items):
                 raise Undecided("nd slice with step")
             s, e = ops.clamp_slice(it.lo, it.hi, n)
             m = ops.slice_len(s, e)
-            plan.append(("slice", s))
+            plan.append(("slice", s, it.lo is None and it.hi is None))
             out_shape.append(m)
         elif isinstance(it, (SArr, SList)):
             arr = to_arr(I, it)
@@ -238,7 +238,33 @@ def nd_getitem(I, a, items):
                 src.append(simp(z3.If(to_z3(j) < 0, to_z3(j) + to_z3(p[2]), to_z3(j))) if is_sym(j) else (j if j >= 0 else pure_arith(I, "Add", p[2], j)))
                 k += 1
         return a.fn(*src)
-    return SArr(tuple(out_shape), fn, a.dtype, a.kind)
+    out = SArr(tuple(out_shape), fn, a.dtype, a.kind)
+    if a.ndim == 2 and len(plan) == 2 and plan[0][0] == "int" and plan[1][0] == "slice" and plan[1][2]:
+        out.row_of = (a, plan[0][1])
+    if a.ndim == 2 and len(plan) == 2 and plan[0][0] == "slice" and plan[1][0] == "slice":
+        # a[r0:r1, c0:c1]: remembered as a window of its base so that row aggregates are functions of (base, row, c0, c1)
+        out.view_of = (a, plan[0][1], plan[1][1], pure_arith(I, "Add", plan[1][1], out_shape[1]))
+    return out
+
+
+def row_aggregate(ctx, name, base):
+    """AGG_name_base(i, lo, hi): the aggregate `name` of base[i, lo:hi] -- a function of the cells it is given"""
+    memo = ctx.__dict__.setdefault("row_aggs", {})
+    key = (name, agg_key(base))
+    if key not in memo:
+        memo[key] = z3.Function(f"rowagg_{name}_{key[1]}", z3.IntSort(), z3.IntSort(), z3.IntSort(), z3.RealSort())
+    return memo[key]
+
+
+_agg_keys = iter(range(1, 10 ** 9))
+
+
+def agg_key(base):
+    """identity of the CONTENT an aggregate reads: fresh per array object (a store creates a new object, hence a new key);
+    squeeze(1) of a (n, 1, L) array shares the key of its source (same cells)"""
+    if getattr(base, "_agg_key", None) is None:
+        base._agg_key = next(_agg_keys)
+    return base._agg_key
 
 
 def setitem(I, obj, idx, v, env, target):
@@ -594,9 +620,13 @@ def np_full(I, args, kwargs):
 
 @lib("numpy.zeros", "numpy.ones", "numpy.empty")
 def np_zeros(I, args, kwargs):
-    shape = args[0]
+    shape = arg(args, kwargs, 0, "shape")
     shp = tuple(shape.items) if isinstance(shape, SList) else (shape,)
     path = I.cur_node.func.attr if hasattr(I.cur_node.func, "attr") else "zeros"
+    if path == "empty":
+        # uninitialised memory: arbitrary content
+        f = I.ctx.fresh_fun("empty", *([z3.IntSort()] * len(shp)), z3.RealSort())
+        return SArr(shp, lambda *i: f(*[to_z3(x) for x in i]), "real", "ndarray")
     val = Fraction(1) if path == "ones" else Fraction(0)
     return SArr(shp, lambda *i: val, "real", "ndarray")
 
@@ -950,7 +980,7 @@ def np_tile(I, args, kwargs):
 
 # ----------------------------------------------------------------------------- aggregators (uninterpreted, recorded)
 
-@lib("numpy.nanmean", "numpy.mean", "numpy.nanmedian", "numpy.median")
+@lib("numpy.nanmean", "numpy.mean", "numpy.nanmedian", "numpy.median", "numpy.std", "numpy.var")
 def np_nanmean(I, args, kwargs):
     """aggregates are uninterpreted: the call is recorded in the ghost trace with the array it is given (contracts
     state WHICH cells feed each output); the result of a 2-d axis=0 aggregate is one uninterpreted value per column"""
@@ -969,7 +999,17 @@ def np_nanmean(I, args, kwargs):
         out.ufun = f
         I.ctx.trace.append(Event(None, name, [a], {"axis": 0}, out, getattr(I.ctx, "loop_k", None)))
         return out
+    if a.ndim == 2 and axis == 1 and getattr(a, "view_of", None):
+        return row_agg_of_view(I, name, a)
     raise Undecided(f"np.{name} with axis={axis} on {a.ndim}-d array")
+
+
+def row_agg_of_view(I, name, a):
+    """aggregate along axis 1 of a window base[r0:, lo:hi]: one value per row, a function of (base, row, lo, hi) only"""
+    base, r0, lo, hi = a.view_of
+    f = row_aggregate(I.ctx, name, base)
+    USED.add(f"np.{name}(axis=1) of a window base[:, lo:hi]: uninterpreted function of (base, row, lo, hi)")
+    return SArr((a.shape[0],), lambda i: f(to_z3(pure_arith(I, "Add", r0, i)), to_z3(lo), to_z3(hi)), "real", "ndarray")
 
 
 # ----------------------------------------------------------------------------- elementwise real functions (exact over the reals)
@@ -1054,3 +1094,180 @@ def arr_reshape2(I, recv, args, kwargs):
         USED.add("ndarray.reshape: C-order (row-major) re-indexing")
         return _reshape_2d_to_3d(I, recv, shp)
     return _old_reshape(I, recv, args, kwargs)
+
+
+# ----------------------------------------------------------------------------- C17 additions: argmax, member averages, list accumulators
+
+def argmax_rows(ctx, base):
+    """AM_base(i): position of the FIRST maximal entry of row i of the 2-d array `base` (np.argmax semantics);
+    the defining axiom is asserted once per base array"""
+    memo = ctx.__dict__.setdefault("argmax_rows", {})
+    key = agg_key(base)
+    if key not in memo:
+        S = _spec()
+        f = z3.Function(f"argmax_row_{key}", z3.IntSort(), z3.IntSort())
+        memo[key] = f
+        n, c = base.shape
+        ax = S.ForAll(lambda i: And(f(to_z3(i)) >= 0, f(to_z3(i)) < to_z3(c),
+                                    S.ForAll(lambda j: And(ops.as_real(base.fn(i, j)) <= ops.as_real(base.fn(i, f(to_z3(i)))),
+                                                           Implies(to_z3(j) < f(to_z3(i)),
+                                                                   ops.as_real(base.fn(i, j)) < ops.as_real(base.fn(i, f(to_z3(i)))))),
+                                             0, c, "amj")), 0, n, "ami")
+        ctx.assume(ax)
+        USED.add("np.argmax(row): index of the first maximal entry (axiomatised per 2-d array)")
+    return memo[key]
+
+
+@lib("numpy.argmax")
+def np_argmax(I, args, kwargs):
+    a = to_arr(I, args[0])
+    axis = arg(args, kwargs, 1, "axis")
+    ctx = I.ctx
+    if a.ndim == 2 and axis == 1:
+        if not ctx.entails(to_z3(a.shape[1]) >= 1):
+            if ctx.branch(to_z3(a.shape[1]) < 1, "argmax-empty"):
+                raise SymRaise(ExcVal(ExtClass("builtins.ValueError"), ()), where="argmax of an empty sequence")
+        f = argmax_rows(ctx, a)
+        return SArr((a.shape[0],), lambda i: f(to_z3(i)), "int", "ndarray")
+    if a.ndim == 1 and axis in (None, 0):
+        ro = getattr(a, "row_of", None)
+        if ro is not None:
+            base, k = ro
+            if not ctx.entails(to_z3(base.shape[1]) >= 1):
+                if ctx.in_quant:
+                    raise Undecided("argmax of a possibly empty row inside a comprehension")
+                if ctx.branch(to_z3(base.shape[1]) < 1, "argmax-empty"):
+                    raise SymRaise(ExcVal(ExtClass("builtins.ValueError"), ()), where="argmax of an empty sequence")
+            return argmax_rows(ctx, base)(to_z3(k))
+        n = simp(a.len)
+        if is_sym(n):
+            raise Undecided("argmax of a 1-d array of symbolic length that is not a row of a 2-d array")
+        if n == 0:
+            raise SymRaise(ExcVal(ExtClass("builtins.ValueError"), ()), where="argmax of empty")
+        b = ctx.fresh_int("argmax")
+        ctx.assume(And(b >= 0, b < n))
+        for j in range(n):
+            vj = ops.as_real(a.fn(j))
+            ctx.assume(Implies(Eq(b, j), And(*[(vj >= ops.as_real(a.fn(k_))) for k_ in range(n)] + [(vj > ops.as_real(a.fn(k_))) for k_ in range(j)])))
+        return b
+    raise Undecided(f"np.argmax axis={axis} on {a.ndim}-d array")
+
+
+def _members(I, v):
+    """a concrete-length python list of equally shaped arrays (e.g. joblib results) -> list of SArr, else None"""
+    if isinstance(v, SList) and v.items and all(isinstance(x, SArr) for x in v.items):
+        return list(v.items)
+    if isinstance(v, SArr) and getattr(v, "stack_of", None):
+        return list(v.stack_of)
+    return None
+
+
+def _cellwise_sum(I, parts):
+    p0 = parts[0]
+
+    def fn(*i):
+        out = ops.as_real(parts[0].fn(*i))
+        for p in parts[1:]:
+            out = out + ops.as_real(p.fn(*i))
+        return simp(out)
+    return SArr(p0.shape, fn, "real", "ndarray")
+
+
+_prev_np_sum = np_sum
+
+
+@lib("numpy.sum", "numpy.nansum")
+def np_sum2(I, args, kwargs):
+    parts = _members(I, args[0])
+    if parts is not None and arg(args, kwargs, 1, "axis") == 0:
+        USED.add("np.sum / np.mean / np.average over axis 0 of a list of m equally shaped arrays: cell-wise sum (/ m); "
+                 "member shapes are taken from the first member")
+        return _cellwise_sum(I, parts)
+    return _prev_np_sum(I, args, kwargs)
+
+
+_prev_np_nanmean = np_nanmean
+
+
+@lib("numpy.nanmean", "numpy.mean", "numpy.nanmedian", "numpy.median", "numpy.std", "numpy.var")
+def np_nanmean2(I, args, kwargs):
+    name = I.cur_node.func.attr
+    parts = _members(I, args[0]) if name == "mean" else None
+    if parts is not None and arg(args, kwargs, 1, "axis") == 0:
+        s = _cellwise_sum(I, parts)
+        m = len(parts)
+        USED.add("np.sum / np.mean / np.average over axis 0 of a list of m equally shaped arrays: cell-wise sum (/ m); "
+                 "member shapes are taken from the first member")
+        return SArr(s.shape, lambda *i: simp(s.fn(*i) / z3.RealVal(m)), "real", "ndarray")
+    return _prev_np_nanmean(I, args, kwargs)
+
+
+@lib("numpy.average")
+def np_average(I, args, kwargs):
+    parts = _members(I, args[0])
+    if parts is not None and arg(args, kwargs, 1, "axis") == 0 and kwargs.get("weights") is None:
+        s = _cellwise_sum(I, parts)
+        m = len(parts)
+        USED.add("np.sum / np.mean / np.average over axis 0 of a list of m equally shaped arrays: cell-wise sum (/ m); "
+                 "member shapes are taken from the first member")
+        return SArr(s.shape, lambda *i: simp(s.fn(*i) / z3.RealVal(m)), "real", "ndarray")
+    raise Undecided(f"np.average of {args[0]!r} axis={arg(args, kwargs, 1, 'axis')}")
+
+
+_prev_np_array = np_array
+
+
+@lib("numpy.array", "numpy.asarray")
+def np_array2(I, args, kwargs):
+    v = args[0]
+    if isinstance(v, SList) and v.items and all(isinstance(x, SArr) and x.ndim == 2 for x in v.items):
+        # stack of m matrices: (m, r, c); kept as a stack so that axis-0 aggregates stay exact
+        parts = list(v.items)
+        p0 = parts[0]
+
+        def fn(k, i, j):
+            if not is_sym(k):
+                return parts[k].fn(i, j)
+            out = parts[-1].fn(i, j)
+            for q in range(len(parts) - 2, -1, -1):
+                out = If(Eq(k, q), parts[q].fn(i, j), out)
+            return out
+        out = SArr((len(parts), p0.shape[0], p0.shape[1]), fn, p0.dtype, "ndarray")
+        out.stack_of = parts
+        return out
+    return _prev_np_array(I, args, kwargs)
+
+
+@method("arr", "squeeze")
+def arr_squeeze(I, recv, args, kwargs):
+    ax = arg(args, kwargs, 0, "axis")
+    if recv.ndim == 3 and ax == 1:
+        c = recv.shape[1]
+        if not I.ctx.entails(Eq(c, 1)):
+            if I.ctx.branch(Not(Eq(c, 1)), "squeeze-not-1"):
+                raise SymRaise(ExcVal(ExtClass("builtins.ValueError"), ()), where="cannot select an axis to squeeze out which has size not equal to one")
+        out = SArr((recv.shape[0], recv.shape[2]), lambda i, j: recv.fn(i, 0, j), recv.dtype, recv.kind)
+        out.name = recv.name
+        out._agg_key = agg_key(recv)
+        return out
+    raise Undecided("squeeze")
+
+
+@method("arr", "append")
+def arr_append(I, recv, args, kwargs):
+    """list.append on a python list of symbolic length (a loop accumulator): rebinds the variable that holds it"""
+    import ast
+    if recv.kind != "list" or recv.ndim != 1:
+        raise exc("AttributeError")
+    v = args[0]
+    n = recv.len
+    old = recv.fn
+    dt = recv.dtype
+    if is_reallike(v) and dt == "int":
+        dt = "real"
+    new = SArr((simp(to_z3(n) + 1),), lambda i: If(Eq(i, n), v, old(i)), dt, "list")
+    node = I.cur_node
+    if not (isinstance(node, ast.Call) and isinstance(node.func, ast.Attribute)):
+        raise Undecided("append on a symbolic list reached through a complex expression")
+    _rebind(I, node.func.value, new, I.cur_env, recv)
+    return None
